@@ -1,0 +1,11 @@
+//go:build !verif
+
+package util
+
+// Randomness seams for the deterministic simulation harness; empty without the "verif" build tag.
+
+func verifRand(int) (int, bool) { return 0, false }
+
+func verifShuffle(int, func(i, j int)) bool { return false }
+
+func verifRandomBytes() []byte { return nil }
